@@ -3,6 +3,7 @@ package host
 import (
 	"fmt"
 	"math/rand"
+	"runtime"
 	"sync"
 	"sync/atomic"
 	"testing"
@@ -313,6 +314,22 @@ func runRoute(t *testing.T, c spec.Case, e Em) {
 				e.Note("stale-dial-succeeded", fmt.Sprint(id))
 			}
 		}
+		if it.LineUp && p.Kind == "mux" {
+			flag := &atomic.Bool{}
+			lineUpFlags.Store(id, flag)
+			defer lineUpFlags.Delete(id)
+			wg.Add(2)
+			go func() {
+				t0 := time.Now()
+				for !flag.Load() && time.Since(t0) < 3*time.Second {
+					runtime.Gosched()
+				}
+				accept()
+			}()
+			go dial()
+			wg.Wait()
+			return
+		}
 		wg.Add(2)
 		if it.AcceptFirst {
 			go accept()
@@ -440,11 +457,19 @@ func runRoute(t *testing.T, c spec.Case, e Em) {
 // pickupHold: ids whose Accept is held at the hook point between taking the parked connection and
 // acknowledging it (several cases run in one process: ids of such items are made unique per case).
 var pickupHold sync.Map  // uint32 -> time.Duration
+var lineUpFlags sync.Map // uint32 -> *atomic.Bool, set when the id arrived at the accepting side's Run
 var gotInfoHold sync.Map // the same for Dials held at grpcbroker.dial.gotInfo
 
 func routeTest(t *testing.T, par int, points ...string) {
 	jit := vp.Jitter(seedEnv(), 3000, &routeHooks, points...)
 	plugin.VerifSetHook(func(name string, id uint32) {
+		if name == "mux.run.gotID" {
+			if f, ok := lineUpFlags.Load(id); ok {
+				routeHooks.Inc(name)
+				f.(*atomic.Bool).Store(true)
+				return
+			}
+		}
 		if name == "grpcbroker.dial.gotInfo" {
 			if d, ok := gotInfoHold.LoadAndDelete(id); ok {
 				routeHooks.Inc(name)
